@@ -211,8 +211,60 @@ class Sched:
 
     def wake(self, res: Any) -> None:
         for x in self.threads:
-            if x.blocked_on is res:
+            if x.blocked_on is res or (isinstance(res, (tuple, str)) and x.blocked_on == res):
                 x.blocked_on = None
+
+    # -- threads ------------------------------------------------------------------------------
+    def _make_thread(self, t: _T, body: Callable[[], Any]) -> None:
+        def runner() -> None:
+            self.by_ident[threading.get_ident()] = t
+            t.sem.acquire()
+            try:
+                if not self.aborting:
+                    body()
+            except DeadlockAbort:
+                t.error = "deadlock"
+            except InternalError as e:
+                t.error = f"internal:{e}"
+            except BaseException as e:  # the driver catches op exceptions itself
+                t.error = f"driver:{type(e).__name__}:{e}"
+            finally:
+                t.done = True
+                t.blocked_on = None
+                self.wake(("join", t.idx))
+                self.wake("any-thread-finished")
+                if not self.aborting:
+                    t.in_point = True
+                    try:
+                        self._switch(t)
+                    except DeadlockAbort:
+                        pass
+                    finally:
+                        t.in_point = False
+                elif all(x.done for x in self.threads):
+                    self.main_sem.release()
+
+        t.thread = threading.Thread(target=runner, daemon=True)
+
+    def spawn(self, body: Callable[[], Any]) -> _T:
+        """Start a new managed thread from inside a managed thread (e.g. an executor's submit).
+        The new thread becomes runnable; the spawner keeps the baton."""
+        t = _T(len(self.threads))
+        self.threads.append(t)
+        self._make_thread(t, body)
+        t.thread.start()
+        import time as _time
+
+        t0 = _time.time()
+        while t.thread.ident not in self.by_ident:
+            _time.sleep(0.0002)
+            if _time.time() - t0 > 10:
+                raise InternalError("spawned thread did not start")
+        return t
+
+    def join(self, t: _T) -> None:
+        while not t.done:
+            self.block_on(("join", t.idx))
 
     # -- running -----------------------------------------------------------------------------
     def run(self, bodies: list[Callable[[], Any]], timeout: float = 60.0) -> list[_T]:
@@ -222,34 +274,7 @@ class Sched:
         for i, body in enumerate(bodies):
             t = _T(i)
             self.threads.append(t)
-
-            def runner(t: _T = t, body: Callable = body) -> None:
-                self.by_ident[threading.get_ident()] = t
-                t.sem.acquire()
-                try:
-                    if not self.aborting:
-                        body()
-                except DeadlockAbort:
-                    t.error = "deadlock"
-                except InternalError as e:
-                    t.error = f"internal:{e}"
-                except BaseException as e:  # the driver catches op exceptions itself
-                    t.error = f"driver:{type(e).__name__}:{e}"
-                finally:
-                    t.done = True
-                    t.blocked_on = None
-                    if not self.aborting:
-                        t.in_point = True
-                        try:
-                            self._switch(t)
-                        except DeadlockAbort:
-                            pass
-                        finally:
-                            t.in_point = False
-                    elif all(x.done for x in self.threads):
-                        self.main_sem.release()
-
-            t.thread = threading.Thread(target=runner, daemon=True)
+            self._make_thread(t, body)
         for t in self.threads:
             t.thread.start()
         _ACTIVE = self
@@ -376,3 +401,77 @@ def replace_locks(root: Any, max_depth: int = 6) -> int:
 
     walk(root, 0)
     return n
+
+
+# ---------------------------------------------------------------------------------------------
+# scheduler-controlled stand-ins for concurrent.futures (Study.optimize(n_jobs=k))
+# ---------------------------------------------------------------------------------------------
+class SchedFuture:
+    def __init__(self) -> None:
+        self.t: Any = None
+        self._exc: BaseException | None = None
+        self._res: Any = None
+        self._done = False
+
+    def done(self) -> bool:
+        return self._done
+
+    def result(self, timeout: Any = None) -> Any:
+        s = _ACTIVE
+        if s is not None and not self._done:
+            s.join(self.t)
+        if self._exc is not None:
+            raise self._exc
+        return self._res
+
+
+class SchedExecutor:
+    """ThreadPoolExecutor whose workers are managed threads of the active Sched (one thread per
+    submitted call; max_workers is honoured by the caller's own `wait` logic)."""
+
+    def __init__(self, max_workers: Any = None, *a: Any, **k: Any) -> None:
+        self.futures: list[SchedFuture] = []
+
+    def __enter__(self) -> "SchedExecutor":
+        return self
+
+    def __exit__(self, *a: Any) -> None:
+        self.shutdown()
+
+    def shutdown(self, wait: bool = True, **k: Any) -> None:
+        s = _ACTIVE
+        if s is None:
+            return
+        for f in self.futures:
+            if not f._done:
+                s.join(f.t)
+
+    def submit(self, fn: Callable, *args: Any, **kwargs: Any) -> SchedFuture:
+        s = _ACTIVE
+        if s is None:
+            raise InternalError("SchedExecutor used outside a scheduled run")
+        f = SchedFuture()
+
+        def body() -> None:
+            try:
+                f._res = fn(*args, **kwargs)
+            except DeadlockAbort:
+                raise
+            except BaseException as e:
+                f._exc = e
+            finally:
+                f._done = True
+
+        f.t = s.spawn(body)
+        self.futures.append(f)
+        s.point("submit")
+        return f
+
+
+def sched_wait(futures: Any, timeout: Any = None, return_when: Any = None) -> tuple:
+    s = _ACTIVE
+    futures = set(futures)
+    while s is not None and futures and not any(f.done() for f in futures):
+        s.block_on("any-thread-finished")
+    done = {f for f in futures if f.done()}
+    return done, futures - done
